@@ -14,6 +14,7 @@ import BtcVerif.Proofs.StreamOrdered
 import BtcVerif.Proofs.StreamUnordered
 import BtcVerif.Proofs.StreamVariant
 import BtcVerif.Proofs.StreamComplete
+import BtcVerif.Proofs.Reorder
 
 namespace BtcVerif.Props.C16
 open BtcVerif.Model.Stream
@@ -204,7 +205,55 @@ theorem flag_tests_pinned :
     (∀ b, blockscan_newNextBlockFunc_lit0_0 (more := b) = !b) :=
   ⟨fun _ => rfl, fun _ => rfl, fun _ => rfl, fun _ => rfl, fun _ => rfl⟩
 
+
+/-! ### the ordering buffer as the map it is: blocks of other branches (`Model/Reorder.lean`)
+
+The transition system above lets the node answer a height with that height's block, with an error, or with a
+block that links to nothing.  Here the node may answer with ANY blocks — siblings that compete for a key of
+`blocksByPrevHash`, repeats, blocks of another chain — in any order.  Whatever it serves, the re-ordering
+goroutine ends without an error only after it has handed out exactly `toHeight − fromHeight` further blocks,
+each naming its predecessor by hash, starting from the first block: a short or unlinked scan is never a
+success. -/
+
+open BtcVerif.Model.Reorder in
+theorem reorderer_success_is_a_full_chain (fromHeight toHeight first : Nat) (evs : List Ev)
+    (hdone : (run fromHeight toHeight first evs).res = .done) :
+    Chain first (run fromHeight toHeight first evs).out ∧
+    toHeight - fromHeight ≤ (run fromHeight toHeight first evs).out.length ∧
+    (run fromHeight toHeight first evs).out.length ≤ blockCount evs := by
+  have h := run_inv fromHeight toHeight first evs
+  refine ⟨h.chain, ?_, ?_⟩
+  · have := h.done hdone
+    have := h.cur
+    omega
+  · have := h.bound
+    omega
+
+open BtcVerif.Model.Reorder in
+/-- with one block per requested height (what the workers deliver), success means exactly the range -/
+theorem reorderer_success_is_exactly_the_range (fromHeight toHeight first : Nat) (evs : List Ev)
+    (hn : blockCount evs ≤ toHeight - fromHeight)
+    (hdone : (run fromHeight toHeight first evs).res = .done) :
+    (run fromHeight toHeight first evs).out.length = toHeight - fromHeight := by
+  have := reorderer_success_is_a_full_chain fromHeight toHeight first evs hdone
+  omega
+
+open BtcVerif.Model.Reorder in
+/-- the theorem discriminates: the variant that stops counting heights (seeded change C16-R6A) reports success
+after two of three blocks when the node serves a sibling of block 2 for height 3 while block 1 is outstanding;
+the library's loop reports the broken link -/
+theorem reorderer_without_counting_accepts_a_short_scan :
+    let evs : List Ev := [.blk ⟨12, 11⟩, .blk ⟨93, 11⟩, .blk ⟨11, 10⟩, .closed]
+    (runNoCount 100 10 evs).res = .done ∧ (runNoCount 100 10 evs).out.length = 2 ∧
+    (run 100 103 10 evs).res = .err := by
+  decide
+
 /-! ### non-vacuity: the hypotheses are satisfiable, the model runs, the validator discriminates -/
+
+open BtcVerif.Model.Reorder in
+/-- an honest node: three further blocks in any order of arrival end in success with the three blocks in chain order -/
+example : (run 100 103 10 [.blk ⟨13, 12⟩, .blk ⟨11, 10⟩, .blk ⟨12, 11⟩]).res = .done ∧
+    (run 100 103 10 [.blk ⟨13, 12⟩, .blk ⟨11, 10⟩, .blk ⟨12, 11⟩]).out = [⟨11, 10⟩, ⟨12, 11⟩, ⟨13, 12⟩] := by decide
 
 example : (⟨.ordered, 100, 101, 2⟩ : Params).lo ≤ (⟨.ordered, 100, 101, 2⟩ : Params).hi := by decide
 example : (⟨.utxo, 7, 7, 3⟩ : Params).lo ≤ (⟨.utxo, 7, 7, 3⟩ : Params).hi := by decide   -- single-block range
